@@ -224,7 +224,9 @@ fn run_case(case: &Value, variation: u64, vbp: &Path, scratch: &Path) -> Vec<Pro
         argv.push(t.join(format!("extra{}", argv.len())));
     }
     let mut cmd = Command::new(bp.join("bin").join(exe_name));
-    cmd.args(&argv).current_dir(&app).env_clear().envs(std::env::var_os("LLVM_PROFILE_FILE").map(|v| ("LLVM_PROFILE_FILE", v))).env("VBP_SCRIPT", t.join("script.json")).env("VBP_OUT", &vout).env("PATH", "/usr/bin:/bin");
+    cmd.args(&argv).current_dir(&app).env_clear().envs(std::env::var_os("LLVM_PROFILE_FILE").map(|v| ("LLVM_PROFILE_FILE", v))).env("VBP_SCRIPT", t.join("script.json")).env("VBP_OUT", &vout).env("PATH", "/usr/bin:/bin")
+        // (a stale PWD, as a shell that changed directory without exporting would leave it: the app directory is the working directory)
+        .env("PWD", &bp);
     if c("bpdir") == "set" { cmd.env("CNB_BUILDPACK_DIR", &bp); }
     // (paired runs only) the scripted buildpack registers two different documents per SBOM format
     if DET.load(std::sync::atomic::Ordering::SeqCst) { cmd.env("VBP_DUP_SBOM", "1"); }
